@@ -930,6 +930,15 @@ fn ctor_bits_expr(f: &ImplItemFn) -> Option<&Expr> {
 fn byte_array(e: &Expr) -> Option<Vec<Value>> {
     match e {
         Expr::Array(a) => a.elems.iter().map(|x| expr_int(x).map(|d| num_json(&d))).collect(),
+        // `[b; N]` with literal b and N denotes N copies of b (what the array IS is reported, however it is spelled)
+        Expr::Repeat(r) => {
+            let elem = expr_int(&r.expr)?;
+            let len: usize = expr_int(&r.len)?.parse().ok()?;
+            if len > 4096 {
+                return None;
+            }
+            Some(std::iter::repeat(num_json(&elem)).take(len).collect())
+        }
         _ => None,
     }
 }
